@@ -4,11 +4,11 @@ from ..explore import bfs
 LEVEL = 'model_checking'
 
 # (universe, max depth | None = closure, link bound | None)
-QUICK = [('U2', None, None), ('U3', None, None), ('U3dq', None, None), ('U4l', 3, None), ('U4e', None, None)]
+QUICK = [('U2', None, None), ('U3', None, None), ('U3dq', None, None), ('U4l', 3, None), ('U4e', None, None), ('U4o', None, None)]
 THOROUGH = [('U2', None, None), ('U3', None, None), ('U3d', None, None), ('U4l', None, None), ('U3c', None, None),
             ('U4e', None, None), ('U4s', None, None), ('U4', None, 1), ('U4d', None, 1)]
 
-PHASE2 = {('U4e', 'quick'): 'attach', ('U4e', 'thorough'): 'full', ('U4s', 'thorough'): 'full'}
+PHASE2 = {('U4e', 'quick'): 'attach', ('U4e', 'thorough'): 'full', ('U4s', 'thorough'): 'full', ('U4o', 'quick'): 'order'}
 
 RULES = {
     'C01': 'every transition of the BFS closure; non-trivial = distinct (pre-state, op) pairs that change the graph or are rejected',
